@@ -1,5 +1,6 @@
 import SciVerif.Tie.Task
 import SciVerif.Props.C09
+import SciVerif.Tie.Pins
 /-! Tie A obligations for C09 on the current source. -/
 namespace SciVerif.Tie
 open SciVerif.TaskFS SciVerif.Generated
@@ -31,7 +32,31 @@ theorem c09_on_source (c : Cfg) (hex : c.beh.exit ≠ .ok) (pre : Nat → Option
     (stepN taskSem c n (init taskSem c pre)).finalOut p = (init taskSem c pre).finalOut p :=
   c09_outputs_never_final taskSem generated_wf_c01_for_c09 c hex pre n p
 
+
+-- BEGIN PINS (written by bin/mkpins; do not edit by hand)
+/-- the Go functions this property's model and obligations were written against have exactly the
+pinned skeletons (SHA-256 prefix of the atom list) -/
+theorem pinned_skeletons_c09 :
+    pinsOk
+    [("Scipipe.BaseProcess_Fail", "06794419eac40800"),
+     ("Scipipe.BaseProcess_Failf", "536c85ecebfbb5bd"),
+     ("Scipipe.CheckWithMsg", "9c35c41ab8e8dc71"),
+     ("Scipipe.Fail", "6dc9afa8d61b0d24"),
+     ("Scipipe.Failf", "4eb8bd4d81ed1ce9"),
+     ("Scipipe.FinalizePaths", "291fc0cefa37cea9"),
+     ("Scipipe.NewTask", "95298f03c320cb96"),
+     ("Scipipe.Task_Execute", "40fd1fec0c69deb2"),
+     ("Scipipe.Task_Fail", "7efd50bffbc769dd"),
+     ("Scipipe.Task_Failf", "9750abd3cdce8d29"),
+     ("Scipipe.Task_anyOutputsExist", "0609a842b7aaf7a8"),
+     ("Scipipe.Task_ensureAllOutputsExist", "02a49c3c493368f3"),
+     ("Scipipe.Task_executeCommand", "98e77d849c0638cb"),
+     ("Scipipe.Task_finalizePaths", "9cd0530d4e86fa92"),
+     ("Scipipe.Task_formatCommand", "ccbe98735ce5c7d6")] = true := by decide
+-- END PINS
+
 end SciVerif.Tie
+#print axioms SciVerif.Tie.pinned_skeletons_c09
 #print axioms SciVerif.Tie.generated_cmd_fail_fatal
 #print axioms SciVerif.Tie.generated_rename_src_temp
 #print axioms SciVerif.Tie.generated_wf_c01_for_c09
